@@ -5,6 +5,8 @@
 
 (define-syntax let
     (syntax-rules ()
+        ((let () body ...)
+            ((lambda () body ...)))
         ((let ((name val) ...) body ...)
             ((lambda (name ...) body ...)
                 val ...))))
@@ -100,12 +102,12 @@
 
 (define-syntax when
       (syntax-rules ()
-        ((when test result1 result2 ...)
+        ((when test result ...)
          (if test
-             (begin result1 result2 ...)))))
+             (begin result ...)))))
 
 (define-syntax unless
       (syntax-rules ()
-        ((unless test result1 result2 ...)
+        ((unless test result ...)
          (if (not test)
-             (begin result1 result2 ...)))))
+             (begin result ...)))))
